@@ -17,7 +17,8 @@
 (*             "tuple" "struct" "default" "closure" "mutclosure" "bound"   *)
 (*             (one child fixed at creation; "struct" and the cell of a    *)
 (*             closure are flagged)                                        *)
-(* edges added later: list element, dict value (a -> b, any b, cycles ok)  *)
+(* edges added later: list element, dict value (a -> b, any b, cycles ok), *)
+(* dict key / set element (b hashable: function, bound method, tuple of)   *)
 (***************************************************************************)
 EXTENDS Integers, Sequences, FiniteSets, TLC, Json
 
@@ -65,11 +66,24 @@ NodesDone == /\ phase = "nodes" /\ N >= 1 /\ phase' = "edges" /\ UNCHANGED <<kin
 \* edges are added in increasing order so that each edge set is built once
 EdgeList == {e \in Nodes \X Nodes : kind[e[1]] \in {"list", "dict"}}
 Code(e) == e[1] * 10 + e[2]
-LastEdgeCode == IF \E i \in 1..Len(hist) : hist[i][1] = "edge"
-                THEN LET i == CHOOSE i \in 1..Len(hist) : hist[i][1] = "edge" /\ \A j \in (i + 1)..Len(hist) : hist[j][1] # "edge"
-                     IN hist[i][2] * 10 + hist[i][3]
+IsEdge(h) == h[1] \in {"edge", "kedge"}
+LastEdgeCode == IF \E i \in 1..Len(hist) : IsEdge(hist[i])
+                THEN LET i == CHOOSE i \in 1..Len(hist) : IsEdge(hist[i]) /\ \A j \in (i + 1)..Len(hist) : ~IsEdge(hist[j])
+                     IN hist[i][2] * 10 + hist[i][3] + (IF hist[i][1] = "kedge" THEN 100 ELSE 0)
                 ELSE 0
-NumEdges == Cardinality({i \in 1..Len(hist) : hist[i][1] = "edge"})
+NumEdges == Cardinality({i \in 1..Len(hist) : IsEdge(hist[i])})
+\* hashable nodes can be dict keys and set elements: functions and bound methods are hashable and
+\* reach mutable values through defaults, closure cells and receivers; a tuple is hashable if its element is
+RECURSIVE HashableNode(_)
+HashableNode(n) == CASE kind[n] \in {"default", "closure", "mutclosure", "bound"} -> TRUE
+                     [] kind[n] = "tuple" -> \A c \in Succ(n) : HashableNode(c)
+                     [] OTHER -> FALSE
+KeyEdgeList == {e \in Nodes \X Nodes : kind[e[1]] \in {"dict", "set"} /\ HashableNode(e[2])}
+AddKeyEdge(e) ==
+  /\ phase = "edges" /\ e \in KeyEdgeList /\ e \notin edges /\ Code(e) + 100 > LastEdgeCode /\ NumEdges < MaxEdges
+  /\ edges' = edges \cup {e} /\ hist' = Append(hist, <<"kedge", e[1], e[2]>>)
+  /\ UNCHANGED <<kind, roots, phase, outcome, frozen, work>>
+
 AddEdge(e) ==
   /\ phase = "edges" /\ e \in EdgeList /\ Code(e) > LastEdgeCode /\ NumEdges < MaxEdges
   /\ edges' = edges \cup {e} /\ hist' = Append(hist, <<"edge", e[1], e[2]>>)
@@ -105,7 +119,7 @@ FreezeDone == /\ phase = "freeze" /\ work = <<>> /\ phase' = "done"
 
 Next == \/ \E k \in Mutable : NewMutable(k)
         \/ \E k \in Composite, b \in Nodes : NewComposite(k, b)
-        \/ NodesDone \/ (\E e \in EdgeList : AddEdge(e)) \/ EdgesDone
+        \/ NodesDone \/ (\E e \in EdgeList : AddEdge(e)) \/ (\E e \in KeyEdgeList : AddKeyEdge(e)) \/ EdgesDone
         \/ (\E R \in SUBSET Nodes : ChooseRoots(R))
         \/ Finish("ok") \/ Finish("fail")
         \/ FreezeVisit \/ FreezeDone
